@@ -1167,6 +1167,10 @@ struct reb_orbit reb_orbit_from_particle_err(double G, struct reb_particle p, st
         }
     }
 
+    if (o.e <= MIN_ECC){                    // pericentre ill defined: (1-d/a)/e above is noise (0/0 for e=0). M-f is O(e), so use M = l-pomega
+        o.M = (o.inc < M_PI/2.) ? o.l - o.pomega : o.pomega - o.l;
+    }
+
     double t0 = 0.0;
     if (p.sim != NULL){                     // if particle isn't in simulation yet, can't get time.
         t0 = p.sim->t;
